@@ -147,6 +147,14 @@ func setupUpd(c UpdCase) *updEnv {
 	if c.Twin != "" {
 		tree["rules/"+c.Twin] = text
 	}
+	if c.Offset > 0 {
+		// the chain starter has an assembly file too (it sorts right behind the chained file's): --all visits both
+		for _, r := range c.Rules.Rules {
+			if r.ID == c.ID && strings.HasSuffix(r.Links[0].Op, "@rx") {
+				tree["regex-assembly/"+c.ID+".ra"] = "starterword\n"
+			}
+		}
+	}
 	tree["rules/REQUEST-901-INITIALIZATION.conf"] = "# other file\nSecRule ARGS \"@rx untouched\" \\\n    \"id:901100,\\\n    phase:1\"\n"
 	// a second, unrelated assembly file whose rule is in sync and which sorts after every 932 target
 	tree["regex-assembly/933100.ra"] = "insync\n"
@@ -272,6 +280,10 @@ func checkC11(c UpdCase) Outcome {
 			oarg := c.ID
 			if other > 0 {
 				oarg = fmt.Sprintf("%s-chain%d", c.ID, other)
+			}
+			if c.Offset > 0 && other > 0 {
+				// two chained links are the subject here; the starter's own assembly file stays out of it
+				_ = os.Remove(e2.sb.Path("crs/regex-assembly/" + c.ID + ".ra"))
 			}
 			e2.sb.WriteFile("crs/regex-assembly/"+oarg+".ra", "otherlink"+fmt.Sprint(other)+"\n")
 			ra := e2.run("regex", "update", "--all")
